@@ -661,7 +661,11 @@ def _contains(token: Token, left: object, right: object) -> bool:
     if isinstance(left, str):
         return str(right) in left
     if isinstance(left, Collection):
-        return right in left
+        try:
+            return right in left
+        except TypeError:
+            # an unhashable right operand is not a key of a mapping
+            return False
 
     raise LiquidTypeError(
         f"'in' and 'contains' are not supported between '{left.__class__.__name__}' "
